@@ -6,6 +6,7 @@ CONSTANTS
   Overwrite = "improved"
   CacheOnly = TRUE
   HasDisk = FALSE
+  UpdateModes <- UM_none
   MaxQueries = 4
 INVARIANT AnswersQuery
 INVARIANT CacheOnlyNeverRuns
@@ -13,4 +14,5 @@ INVARIANT MemCoherent
 INVARIANT NoDiskNoFiles
 PROPERTY RepeatIsHit
 PROPERTY ImprovedMonotone
+PROPERTY UpdateRespectsMode
 CHECK_DEADLOCK FALSE
